@@ -15,6 +15,7 @@ mod vmodel;
 mod c01;
 mod c01x;
 mod c02;
+mod c02w;
 mod c04;
 mod c05x;
 mod c10;
